@@ -108,14 +108,13 @@ package lint
 //@   assigns \nothing
 //@   ensures notolder(result, this)
 
+//@ spec cfgOK(c Configuration) bool = c.tree != nil
+
 //@ func (Configuration).MaybeConfigure [C04 C11]
+//@   requires cfgOK(c)
 //@   maypanic
 //@   assigns \fresh, \after(lint)
 //@   ensures implies(!implementsI(lint, Configurable), result == nil)
-
-//@ func (Configuration).Configure [C11 C02]
-//@   maypanic
-//@   assigns \fresh, \after(lint)
 
 // ---------------------------------------------------------------------------
 // execution order and verdict pass-through (C01 C03 C04 C11)
@@ -126,7 +125,7 @@ package lint
 //@      implies(src == CABFCSBaselineRequirements,    util.IsCodeSigning(c.PolicyIdentifiers))
 
 //@ func (*CertificateLint).execute [C01 C03 C04 C11]
-//@   requires l != nil && cert != nil && l.Lint != nil
+//@   requires l != nil && cert != nil && l.Lint != nil && cfgOK(config)
 //@   maypanic
 //@   assigns \fresh
 //@   ensures [C01] result != nil && fresh(result) && 1 <= result.Status && result.Status <= 7
@@ -150,7 +149,7 @@ package lint
 //@              g.nExec == 1 && g.recvExec == g.retCtor && g.tApplies < g.tExec && result == g.retExec)
 
 //@ func (*CertificateLint).Execute [C01 C03 C04 C11]
-//@   requires l != nil && cert != nil && l.Lint != nil
+//@   requires l != nil && cert != nil && l.Lint != nil && cfgOK(config)
 //@   nopanic
 //@   assigns \fresh
 //@   ensures [C01] result != nil && fresh(result) && 1 <= result.Status && result.Status <= 7
@@ -160,7 +159,7 @@ package lint
 //@   ensures [C04] implies(!g.panicked && !old(inScope(l.Source, cert)), result.Status == NA)
 
 //@ func (*RevocationListLint).Execute [C01 C03 C04 C11]
-//@   requires l != nil && r != nil && l.Lint != nil
+//@   requires l != nil && r != nil && l.Lint != nil && cfgOK(config)
 //@   maypanic
 //@   assigns \fresh
 //@   ensures [C01] result != nil && fresh(result) && 1 <= result.Status && result.Status <= 7
@@ -178,7 +177,7 @@ package lint
 //@              g.nExec == 1 && g.recvExec == g.retCtor && g.tApplies < g.tExec && result == g.retExec)
 
 //@ func (*OcspResponseLint).Execute [C01 C03 C04 C11]
-//@   requires l != nil && o != nil && l.Lint != nil
+//@   requires l != nil && o != nil && l.Lint != nil && cfgOK(config)
 //@   maypanic
 //@   assigns \fresh
 //@   ensures [C01] result != nil && fresh(result) && 1 <= result.Status && result.Status <= 7
@@ -217,6 +216,7 @@ package lint
 //@   pure
 //@ interface Registry.GetConfiguration
 //@   pure
+//@   ensures cfgOK(result)
 //@ interface Registry.CertificateLints
 //@   pure
 //@   ensures result != nil
@@ -444,10 +444,10 @@ package lint
 //@   ensures result != nil
 
 //@ func (*registryImpl).GetConfiguration [C08 C10 C11]
-//@   requires r != nil
+//@   requires r != nil && cfgOK(r.configuration)
 //@   nopanic
 //@   assigns \nothing
-//@   ensures result == r.configuration
+//@   ensures result == r.configuration && cfgOK(result)
 
 //@ func (*registryImpl).SetConfiguration [C08 C11]
 //@   requires r != nil
@@ -502,7 +502,27 @@ package lint
 //@   nopanic
 //@   assigns \fresh, \after(i)
 
+//@ trace extern (*github.com/pelletier/go-toml.Tree).Get as TomlGet
+//@ trace extern (*github.com/pelletier/go-toml.Tree).Unmarshal as TomlUnm
+
+// a section that does not exist is never unmarshalled ("no configuration, an empty one, or one
+// containing only unrelated sections" all take this path); a section that is not a table or does
+// not fit the target is an error
 //@ func (Configuration).deserializeConfigInto [C11 C02]
-//@   requires c.tree != nil
+//@   requires cfgOK(c)
 //@   nopanic
 //@   assigns \fresh, \after(target)
+//@   ensures g.nTomlGet == 1 && g.argTomlGet == namespace && g.recvTomlGet == c.tree
+//@   ensures implies(g.retTomlGet == nil, g.nTomlUnm == 0)
+//@   ensures implies(g.retTomlGet != nil && !typeIs(g.retTomlGet, *toml.Tree), result != nil && g.nTomlUnm == 0)
+//@   ensures implies(g.nTomlUnm == 1, g.argTomlUnm == target && implies(g.retTomlUnm != nil, result != nil))
+
+//@ func (Configuration).Configure [C11 C02]
+//@   requires cfgOK(c)
+//@   nopanic
+//@   assigns \fresh, \after(lint)
+
+//@ func NewEmptyConfig [C11]
+//@   trusted
+//@   pure
+//@   ensures cfgOK(result)
